@@ -153,9 +153,12 @@ impl Evaluator {
         let ntt_form = context_data.is_bgv() || context_data.is_ckks();
         let poly_modulus_degree = lwes[0].poly_modulus_degree();
         let parms_id = *lwes[0].parms_id();
-        // check all have same parms_id
+        // check all have same parms_id, scale and correction factor: the data of the inputs is merged
+        // through a scratch ciphertext carrying the metadata of the first one
         for lwe in lwes.iter() {
             assert_eq!(lwe.parms_id(), &parms_id, "All LWE ciphertexts must have the same parms_id.");
+            assert!(crate::util::are_close_f64(lwe.scale(), lwes[0].scale()), "All LWE ciphertexts must have the same scale.");
+            assert_eq!(lwe.correction_factor(), lwes[0].correction_factor(), "All LWE ciphertexts must have the same correction factor.");
         }
         assert!(lwes_count <= poly_modulus_degree, "LWE ciphertexts count must be at most poly_modulus_degree.");
         use crate::util;
